@@ -839,6 +839,42 @@ fn run_race(rw: bool, seed: u64, exec: u64, rng: &mut Rng) -> (Vec<Finding>, u64
       _ => race!(l.try_write().expect("fresh rwlock"), l.read_async(), l.write_async(), "rwlock: writer behind reader, held exclusively"),
     }
   }
+  if rw && rng.chance(1, 3) {
+    // A stream of overlapping async readers against a queued writer, polled by hand on this thread: every new
+    // read_async is taken before the previous guard is released, so the reader count never reaches zero. A lock
+    // that grants them one after another while the writer is queued starves that writer for as long as the stream lasts.
+    let l2 = HybridRwLock::new(Protected { plain: 0 });
+    let mut held = vec![l2.try_read().expect("fresh rwlock")];
+    let mut wfut = Box::pin(l2.write_async());
+    let wf = Flag::new();
+    if poll_once(wfut.as_mut(), &wf).is_pending() {
+      let mut granted = 0u32;
+      for _ in 0..200 {
+        let mut rf = Box::pin(l2.read_async());
+        let fl = Flag::new();
+        match poll_once(rf.as_mut(), &fl) {
+          Poll::Ready(g) => {
+            granted += 1;
+            held.push(g);
+            if held.len() > 2 {
+              held.remove(0);
+            }
+          }
+          Poll::Pending => break,
+        }
+      }
+      sig.u64(1000 + granted as u64);
+      if granted >= 200 {
+        f.push(Finding {
+          rule: "writer-starved".into(),
+          summary: "200 overlapping read_async acquisitions were granted one after another while a write_async was queued behind the first read guard; the reader count never reached zero".into(),
+          detail: json!({"shape": "reader-stream", "granted": granted}),
+        });
+      }
+    }
+    drop(held);
+    drop(wfut);
+  }
   (f, sig.finish())
 }
 
